@@ -459,6 +459,8 @@ class Interp:
             return (not t) if isinstance(t, bool) else z3.Not(t)
         if isinstance(node.op, ast.USub):
             if is_z3(v):
+                if v.sort() == U:
+                    return self.uf("neg", v)
                 if is_fp(v):
                     return z3.fpNeg(v)
                 if z3.is_bool(v):
